@@ -22,7 +22,10 @@ ObsVal(o) == Val(o.k, o.t, o.u, <<o.a[1], o.a[2]>>, o.x)
 
 Match(exp, obs) ==
     CASE exp.k = "oor" -> "oor"
-      [] exp.k = "e"   -> IF obs.k = "e" /\ exp.x \in SeqRange(obs.mro) THEN "ok" ELSE "bad"
+      [] exp.k = "e"   -> IF obs.k = "e" /\ (exp.x \in SeqRange(obs.mro)
+                                              \/ (exp.x = "ZeroDivisionError|UndefinedResultError"
+                                                  /\ ("ZeroDivisionError" \in SeqRange(obs.mro) \/ "UndefinedResultError" \in SeqRange(obs.mro))))
+                          THEN "ok" ELSE "bad"
       [] exp.k = "q"   -> IF obs.k = "q" /\ obs.t = exp.t /\ obs.u = exp.u
                              /\ <<obs.a[1], obs.a[2]>> = exp.a THEN "ok" ELSE "bad"
       [] exp.k = "qv"  -> IF obs.k = "q" /\ obs.t = exp.t /\ obs.u \in UnitsOf(exp.t)
